@@ -143,9 +143,13 @@ func VC05_DERvsReference() {
 	serial := vSerial()
 	cert := vsym.Cert(signer, serial)
 	raw, issuer := cert.Raw, cert.RawIssuer
+	before := time.Now().UTC()
 	out, err := SignPKCS7(signer, cert, oid.oid, content)
 	vsym.Assert(err == nil, "signing succeeds")
 	now := time.Now().UTC()
+	if !vsym.Symbolic() && now.Format("060102150405") != before.Format("060102150405") {
+		return // native replay only: the wall clock crossed a second boundary during the call; nothing to compare
+	}
 	attrs := vRefSignedAttrs(oid.der, now, content)
 	d := sha256.Sum256(attrs)
 	sig, _ := signer.Sign(rand.Reader, d[:], crypto.SHA256)
